@@ -15,6 +15,7 @@ ASSUMPTIONS = [
     '[REAL] semantics: AngDiff(x, y) is y - x with zero error term and AngRound, LatFix, AngNormalize are the identity (their rounding refinements and the reduction modulo 360 are outside the claim; periodicity in longitude is C04/C16); signed zeros do not exist in the real model',
     'inputs: latitudes of each sign pattern in (-90, 90) (both non-zero, or both exactly zero: the equatorial problem), non-zero longitude difference of each sign with |difference| < 180, |lat1| != |lat2| for the exchange (ties between equally short geodesics are excluded as the property allows); outmask = DISTANCE|AZIMUTH|REDUCEDLENGTH|GEODESICSCALE (AREA branch outside the claim); every ellipsoid-dependent member of the Geodesic object is arbitrary, the tolerance constants have their constructor values, _exact = false',
     'GeodesicExact::GenInverse (obligations X.*) is encoded in the same way; its EllipticFunction object is a token whose state is a deterministic function of the arguments of the Reset / Lambda12 call that last set it',
+    'D.GenInverse.<case>.-+E: both GenInverse functions (IR compiled with -mllvm -inline-threshold=0) are executed on the same symbolic problem (lat1 < 0 < lat2, lon2 - lon1 in (0, 180), f > 0, e2 > 0, a > 0) with outmask = DISTANCE|AZIMUTH|REDUCEDLENGTH|GEODESICSCALE|AREA and ONE abstract numerical core shared by the two solvers: InverseStart, Lambda12 (converging at its first call), Lengths (without eps / the EllipticFunction object), sincosd, sincosde, sin, cos, sqrt, hypot, atan2 are uninterpreted functions; the area integral is one uninterpreted B4(ssig, csig) - series: SinCosSeries of the C4 coefficients, exact: DST::integral(ssig1, csig1, ssig2, csig2) modelled as B4(2) - B4(1), its dependence on k2/eps dropped; EllipticFunction, I4Integrand, std::function, DST::transform are no-ops and std::vector an opaque buffer. The three cases split the problem by assumptions recorded in the path condition: meridian (sin of the longitude difference = 0), short (InverseStart returns sig12 >= 0), newton (it returns < 0). What is decided: case selection, canonical-form flags, the short-line formulas (s12, m12, M12, M21, a12, omg12), both alp12 formulas of the area, the alp12 = +-180 fix-up, and the sign restoration are the same function of the core in both solvers. f < 0 (dn1/dn2 are computed by different formulas) and the other sign patterns are outside these obligations. Replay: as for D.InverseStart, plus S12 on WGS84 (difference > 0.5 m^2) away from the antipode',
     'D.InverseStart.*: both InverseStart functions are executed (IR compiled with -mllvm -inline-threshold=0) on the same symbolic sbet1, cbet1, dn1, sbet2, cbet2, dn2, lam12, slam12, clam12 and the same ellipsoid members, under the canonical-form precondition of GenInverse (sbet1 <= 0 < cbet1, cbet2 > 0, sbet1 <= sbet2 <= -sbet1, lam12 >= 0, slam12 >= 0); sin, cos, sqrt, hypot, atan2, cbrt, Astroid and Lengths are uninterpreted functions shared by the two runs (Lengths without its first argument: eps / the EllipticFunction object). Oblate obligation: f > 0 and n > 1/10, so the antipodal arm, whose longitude scale comes from A3 in one solver and from the complete integral H in the other, is not entered - that arm for n <= 1/10 is outside the claim. Replay: the real series and exact solvers on 150+ problems per ellipsoid down to 1e-9 deg from the antipode and 1e-9 deg separation; s12 differing by more than 10 um reproduces',
 ]
 MASK = 0x0400 | 0x0001 | 0x0200 | 0x1000 | 0x0004 | 0x2000
@@ -228,6 +229,7 @@ def _run_gi2(ctx, exact, lat1, lon1, lat2, lon2, assume, case):
     cells.update({0: 83, 8: rsym.RV(Fraction(1, 2 ** 511)), 16: rsym.RV(Fraction(1, 2 ** 52)), 24: rsym.RV(Fraction(200, 2 ** 52)), 32: rsym.RV(Fraction(1, 2 ** 26)), 40: rsym.RV(Fraction(1, 2 ** 52)), 48: rsym.RV(Fraction(1000, 2 ** 26))})
     for n in IS_SHARED: cells[o[n]] = z3.Real('m' + n)
     if '_exact' in o: cells[o['_exact']] = 0
+    if '_nC4' in o: cells[o['_nC4']] = 30          # size of the (opaque) DST coefficient vector: a concrete int, never used by the abstract core
     def U(name, n): return lambda ex, a, mem: ex.UF(name, n)(*a[:n])
     def outs(ex, mem, ptrs, tag, args):
         for k, p_ in enumerate(ptrs): ex.store(mem, p_, None, ex.UF('%s_%d' % (tag, k), len(args))(*args))
@@ -250,6 +252,10 @@ def _run_gi2(ctx, exact, lat1, lon1, lat2, lon2, assume, case):
         if isinstance(a[20], int) and (a[20] & 1): ex.store(mem, a[21], None, ex.UF('L12_dlam', 10)(*args))
         return rsym.RV(0)
     def lengths(ex, a, mem): args = a[2:11]; outs(ex, mem, a[12:17], 'LEN', args); return None
+    def vecctor(ex, a, mem):                 # std::vector<double>(n): an opaque buffer; only its address is passed on (to the opaque DST routines)
+        ex.new_obj(mem, 'C4a', {})
+        for off in (0, 8, 16): ex.store(mem, rsym.Ptr(a[0].obj, a[0].off + off), None, rsym.Ptr('C4a', 0))
+        return None
     def b4(ex, a, mem): return ex.UF('B4', 2)(a[1], a[2])
     def dstint(ex, a, mem): return ex.UF('B4', 2)(a[2], a[3]) - ex.UF('B4', 2)(a[0], a[1])
     opq = {'@_ZN13GeographicLib4Math7AngDiffIdEET_S2_S2_RS2_': angdiff, '@_ZN13GeographicLib4Math8AngRoundIdEET_S2_': lambda ex, a, mem: a[0], '@_ZN13GeographicLib4Math6LatFixIdEET_S2_': lambda ex, a, mem: a[0],
@@ -260,7 +266,7 @@ def _run_gi2(ctx, exact, lat1, lon1, lat2, lon2, assume, case):
            '@_ZNK13GeographicLib8Geodesic7LengthsEddddddddddjRdS1_S1_S1_S1_Pd': lengths, '@_ZNK13GeographicLib13GeodesicExact7LengthsERKNS_16EllipticFunctionEdddddddddjRdS4_S4_S4_S4_': lengths,
            '@_ZN13GeographicLib8Geodesic12SinCosSeriesEbddPKdi': b4, '@_ZNK13GeographicLib8Geodesic3C4fEdPd': nop, '@_ZN13GeographicLib3DST8integralEddddPKdi': dstint,
            '@_ZN13GeographicLib16EllipticFunctionC2Edd': nop, '@_ZN13GeographicLib16EllipticFunction5ResetEdddd': nop, '@_ZN13GeographicLib13GeodesicExact11I4IntegrandC2Edd': nop,
-           '@_ZNK13GeographicLib3DST9transformESt8functionIFddEEPd': nop, '@_ZNSt14_Function_baseD2Ev': nop, '@_ZNSt6vectorIdSaIdEEC2EmRKS0_': nop, '@_ZNSt6vectorIdSaIdEED2Ev': nop,
+           '@_ZNK13GeographicLib3DST9transformESt8functionIFddEEPd': nop, '@_ZNSt14_Function_baseD2Ev': nop, '@_ZNSt6vectorIdSaIdEEC2EmRKS0_': vecctor, '@_ZNSt6vectorIdSaIdEED2Ev': nop,
            '@_ZNSt8functionIFddEEC2IRN13GeographicLib13GeodesicExact11I4IntegrandEvEEOT_': nop}
     ex = rsym.Exec(m, opaque=opq, libm={'sqrt': U('sqrt', 1), 'hypot': U('hypot', 2), 'atan2': U('atan2', 2), 'sin': U('sin', 1), 'cos': U('cos', 1)}, assume=list(assume), path_cap=1024, timeout_ms=3000)
     def mk(ex, mem):
@@ -273,7 +279,7 @@ def ob_diff_gi(ctx, s1, s2, sd, case):
     base = [la1 > 0, la1 < 90, la2 > 0, la2 < 90, D > 0, D < 180, z3.Real('m_f') > 0, z3.Real('m_e2') > 0, z3.Real('m_a') > 0, z3.Real('m_f1') > 0]
     lat1, lat2 = (la1 if s1 > 0 else -la1 if s1 < 0 else rsym.RV(0)), (la2 if s2 > 0 else -la2 if s2 < 0 else rsym.RV(0))
     lon1, lon2 = L, (L + D if sd > 0 else L - D)
-    A = _run_gi2(ctx, False, lat1, lon1, lat2, lon2, base, case); B = _run_gi2(ctx, True, lat1, lon1, lat2, lon2, base, case)
+    B = _run_gi2(ctx, True, lat1, lon1, lat2, lon2, base, case); A = _run_gi2(ctx, False, lat1, lon1, lat2, lon2, base, case)
     s = z3.Solver(); s.set('timeout', 5000)
     def keys(p):
         cs = [z3.simplify(c) for c in p.cond[len(base):]]
@@ -322,11 +328,10 @@ def obligations(ctx):
             if which in ('exchange', 'equator') and s1 == 0: continue
             obs.append(Ob('X.%s.%s%s%s' % (which, '+' if s1 > 0 else '-' if s1 < 0 else '0', '+' if s2 > 0 else '-' if s2 < 0 else '0', 'E' if sd > 0 else 'W'), (lambda ctx, w=which, a=s1, b=s2, c=sd: ob_sym(ctx, w, a, b, c, True)), '[REAL] core opaque', 'E2 rsym+z3',
                           'GeodesicExact::GenInverse, ' + desc[which], timeout=1500, tier='quick' if (which, s1, s2, sd) in QX else 'thorough', bounds={'signs': [s1, s2, sd]}))
-    import os
-    for (s1, s2, sd, case) in (((-1, 1, 1, 'short'), (-1, 1, 1, 'meridian'), (-1, 1, 1, 'newton'), (1, 1, -1, 'short'), (1, -1, 1, 'meridian')) if os.environ.get('VERIF_EXPERIMENTAL') else ()):
+    for (s1, s2, sd, case) in ((-1, 1, 1, 'short'), (-1, 1, 1, 'meridian'), (-1, 1, 1, 'newton')):
         obs.append(Ob('D.GenInverse.%s.%s%s%s' % (case, '+' if s1 > 0 else '-' if s1 < 0 else '0', '+' if s2 > 0 else '-' if s2 < 0 else '0', 'E' if sd > 0 else 'W'), (lambda ctx, a=s1, b=s2, c=sd, d=case: ob_diff_gi(ctx, a, b, c, d)), '[REAL] core opaque, shared by both solvers', 'E2 rsym+z3',
                       'series and exact solvers agree: Geodesic::GenInverse and GeodesicExact::GenInverse on the same symbolic problem and the same abstract numerical core write the same a12, s12, azimuth sines/cosines, m12, M12, M21 and S12 (canonical form, meridian / equatorial / short-line / Newton case selection, area assembly incl. both alp12 formulas and the sign restoration)',
-                      timeout=1500, tier='thorough', bounds={'signs': [s1, s2, sd]}))
+                      timeout=1500, tier='quick', bounds={'signs': [s1, s2, sd], 'case': case}))
     for region in ('oblate', 'prolate'):
         obs.append(Ob('D.InverseStart.%s' % region, (lambda ctx, g=region: ob_diff_is(ctx, g)), '[REAL] leaf functions opaque', 'E2 rsym+z3',
                       'series and exact solvers agree: Geodesic::InverseStart and GeodesicExact::InverseStart (starting guess, short-line shortcut, antipodal/astroid arm) executed on the same symbolic inputs return the same sig12, salp1, calp1, salp2, calp2, dnm on every feasible pair of paths',
@@ -378,6 +383,6 @@ MANIFEST = {
     'technique': 'symbolic execution of the clang IR of Geodesic::GenInverse / GeodesicExact::GenInverse over z3 reals, run on a problem and on its reflected / exchanged image with the numerical core as deterministic uninterpreted functions; and of Geodesic::InverseStart against GeodesicExact::InverseStart on the same symbolic inputs (differential); outputs compared path pair by path pair (z3 validity queries)',
     'text': 'Bounded solver verdicts on the real code: the canonical-form bookkeeping of the series and of the exact inverse solver (sign of the longitude difference, end-point swap, hemisphere flip and their restoration in s12, the azimuth sines/cosines, m12, M12, M21, a12) '
             'makes the outputs transform exactly as the symmetries of the problem demand under reflection in the equator, reflection in a meridian and exchange of the end points, for all 8 sign patterns of the inputs. '
-            'Series and exact solvers agree on the starting guess: InverseStart of both solvers (short-line shortcut and its guards, spherical starting azimuth, the prolate antipodal/astroid arm) returns the same sig12, salp1, calp1, salp2, calp2, dnm on every feasible pair of paths for the same inputs (f < 0: whole function; f > 0: n > 1/10, where the A3/H-based antipodal arm is skipped).',
-    'note': 'Numerical core opaque (uninterpreted): joining the points, shortestness, convergence, a12 range are not decided; agreement of the two solvers is decided only for InverseStart (leaf functions sin, cos, sqrt, hypot, atan2, cbrt, Astroid, Lengths uninterpreted; oblate antipodal arm for n <= 1/10 excluded); one Newton evaluation; real semantics (no signed zeros, AngDiff = difference); ties excluded; AREA branch not encoded. Trusted: clang-14, vfw/irparse+rsym, z3.',
+            'Series and exact solvers agree in everything but their numerical core: GenInverse of both solvers, executed on the same problem with one shared abstract core (meridian, short-line and Newton cases, area assembly with both alp12 formulas), writes the same a12, s12, azimuths, m12, M12, M21, S12 (sign pattern lat1 < 0 < lat2, eastward, f > 0); and on the starting guess: InverseStart of both solvers (short-line shortcut and its guards, spherical starting azimuth, the prolate antipodal/astroid arm) returns the same sig12, salp1, calp1, salp2, calp2, dnm on every feasible pair of paths for the same inputs (f < 0: whole function; f > 0: n > 1/10, where the A3/H-based antipodal arm is skipped).',
+    'note': 'Numerical core opaque (uninterpreted): joining the points, shortestness, convergence, a12 range are not decided; agreement of the two solvers is decided for the GenInverse bookkeeping/area assembly around a shared abstract core (one sign pattern, f > 0) and for InverseStart (leaf functions sin, cos, sqrt, hypot, atan2, cbrt, Astroid, Lengths uninterpreted; oblate antipodal arm for n <= 1/10 excluded); one Newton evaluation; real semantics (no signed zeros, AngDiff = difference); ties excluded; AREA branch encoded only in the D.GenInverse obligations. Trusted: clang-14, vfw/irparse+rsym, z3.',
 }
